@@ -16,14 +16,18 @@ RULE = ("finite matrix worker class {sync,gthread,gevent,eventlet} x phase of a 
         "whole matrix; quick: a seeded slice of 72 cells). Oracle: TERM and a request a worker had started reading and an application "
         "finishing in time => complete response (independent response reader); master exit status 0 within graceful_timeout+4 s (INT/"
         "QUIT: within 4 s); afterwards no process of the master's session alive, listener not connectable, pid file and unix socket file "
-        "gone. non-trivial = a request was in flight at the signal; distinct by cell")
+        "gone. (K) the real Arbiter.run() on C03's simulated kernel: pool 1-4 x history of worker deaths / workers on their way out / "
+        "TTIN / TTOU / HUP / hung workers, then TERM, QUIT or INT to the master while some workers die by themselves at the arbiter's next "
+        "system-call boundaries x schedule vector: run() leaves through sys.exit(0) without an exception, within graceful_timeout (virtual "
+        "time), every worker alive at the signal was told to stop and none survives without a SIGKILL. "
+        "non-trivial = a request was in flight at the signal (R) / a worker was in transit at the signal (K); distinct by cell")
 ASSUMPTIONS = [
     "the signal lands somewhere inside the controlled phase: kernel scheduling inside gunicorn is not owned by the harness",
     "'started reading' is asserted only where the harness knows a handler is reading: sync any accepted connection, gthread >=1 byte "
     "sent with a free thread, gevent/eventlet accepted",
     "wall-clock bounds carry 4 s of slack; a server that does not become ready within 25 s makes the cell inconclusive, not a violation",
 ]
-BUDGET = {"quick": (16, 0), "thorough": (16, 0)}
+BUDGET = {"quick": (16, 150), "thorough": (16, 20000)}
 G = 4
 
 KINDS = ["sync", "gthread", "gevent", "eventlet"]
@@ -75,7 +79,90 @@ def extra_cases(tier, seed, shard, nshards):
 EXHAUSTIVE_NOTE = "thorough tier enumerates all %d cells of the matrix; quick a seeded slice of 72" % len(list(matrix()))
 
 
+def strategy(tier):
+    """engine K: the real Arbiter.run() on the simulated kernel (see C03) is told to stop while workers die, are being retired or hang"""
+    from hypothesis import strategies as st
+    ev = st.one_of(
+        st.tuples(st.just("exit"), st.integers(0, 4), st.sampled_from([0, 1 << 8, 9, 15])),
+        st.tuples(st.just("exit_soon"), st.integers(0, 4), st.sampled_from([0, 0, 1 << 8, 9])),
+        st.tuples(st.just("exit_soon"), st.integers(0, 4), st.sampled_from([0, 15])),
+        st.tuples(st.just("sig"), st.lists(st.sampled_from(["SIGTTIN", "SIGTTOU", "SIGTTOU"]), min_size=1, max_size=3)),
+        st.tuples(st.just("hang"), st.integers(0, 3), st.sampled_from(["hung", "hung-ignore-abrt"])),
+        st.tuples(st.just("hup"), st.integers(1, 3)),
+        st.tuples(st.just("tick")),
+    )
+    return st.fixed_dictionaries({
+        "engine": st.just("K"),
+        "workers": st.integers(1, 4),
+        "graceful": st.sampled_from([1, 2, 3]),
+        "events": st.lists(ev, min_size=0, max_size=6).map(lambda l: [list(e) for e in l]),
+        "final": st.sampled_from(["SIGTERM", "SIGTERM", "SIGQUIT", "SIGINT"]),
+        "with_final": st.lists(st.tuples(st.just("exit_soon"), st.integers(0, 4), st.sampled_from([0, 1 << 8])), max_size=2).map(
+            lambda l: [list(e) for e in l]),
+        "sched": st.lists(st.integers(0, 11), max_size=60),
+    })
+
+
+def run_sim(case):
+    from vlib import ksim
+    # workers that are on their way out when the stop signal arrives are marked in the same idle period as the signal
+    events = [list(e) for e in case["events"]] + [["multi"] + [list(e) for e in case["with_final"]] + [["msig", case["final"]]]]
+    flat = []
+    for e in events:
+        if e[0] == "multi":
+            flat.append(e)
+        else:
+            flat.append(e)
+    k = ksim.Kernel(case["sched"], [], quiesce_steps=40)
+    # "multi" = several things happen within one idle period of the master
+    orig_apply = k.apply_event
+
+    def apply(ev):
+        if ev[0] == "multi":
+            for sub in ev[1:]:
+                orig_apply(sub)
+        else:
+            orig_apply(ev)
+    k.apply_event = apply
+    k.events = flat
+    out = ksim.run_arbiter(k, {"workers": case["workers"], "timeout": 30, "graceful_timeout": case["graceful"]})
+    vio = []
+
+    def V(clause, sig, observed=None, expected=None):
+        vio.append(Violation(clause, "C04/sim:" + sig, observed={"detail": observed, "trace": k.trace[-14:], "case": case}, expected=expected))
+
+    stopped_at = getattr(k, "stop_signal_at", None)
+    classes = ["engine:K", "final:" + case["final"], "workers:%d" % case["workers"]]
+    if stopped_at is None:
+        return Outcome([], False, classes + ["inconclusive:signal-not-delivered:%s" % out["left"]], sample={"case": case})
+    graceful = case["final"] == "SIGTERM"
+    if out["error"]:
+        V("master-exits-0", "arbiter-raised:" + out["error"].split(":")[0], out["error"], "exit status 0")
+    elif out["exit"] != 0:
+        V("master-exits-0", "arbiter-exit-status-%s" % out["exit"], {"exit": out["exit"], "left": out["left"]}, 0)
+    else:
+        took = k.clock - stopped_at
+        limit = (case["graceful"] if graceful else 0) + 2.5
+        if took > limit + 1e-6 and graceful:
+            V("exits-in-time", "master-exit-late:graceful", {"took": took}, "<= graceful_timeout + slack")
+        survivors = [p.pid for p in k.live() if 9 not in [s for _, s in p.signals]]
+        if survivors:
+            V("no-worker-survives", "worker-neither-dead-nor-killed-at-master-exit", {"pids": survivors}, "every live worker was sent SIGKILL at the latest")
+        want = int(signal.SIGTERM if graceful else signal.SIGQUIT)
+        for pid in getattr(k, "live_at_stop", []):
+            p = k.procs[pid]
+            sigs = [s for t, s in p.signals if t >= stopped_at - 1e-9]
+            died = [t for t in k.trace if t[0] == "died" and t[1] == pid]
+            if want not in sigs and 9 not in sigs and not died:
+                V("workers-told-to-stop", "live-worker-never-signalled-at-shutdown", {"pid": pid, "signals": p.signals}, want)
+                break
+    dying = len(case["with_final"]) > 0 or any(e[0] in ("exit_soon", "sig", "hang") for e in case["events"])
+    return Outcome(vio, dying, classes + ["workers-in-transit:%s" % dying], sample={"case": case, "exit": out["exit"], "trace": k.trace[-8:]})
+
+
 def run_case(case):
+    if case.get("engine") == "K":
+        return run_sim(case)
     kind, phase, app, sig, bind = case["kind"], case["phase"], case["app"], case["sig"], case["bind"]
     signum = getattr(signal, "SIG" + sig)
     classes = ["kind:" + kind, "phase:" + phase, "app:" + app, "sig:" + sig, "bind:" + bind]
